@@ -187,6 +187,10 @@ func (p *Parser) parseStatement() ast.Statement {
 		return &ast.BreakStmt{Token: p.curToken}
 	case token.CONTINUE:
 		return &ast.ContinueStmt{Token: p.curToken}
+	case token.RPAREN:
+		// ")" ends a clause of "@for"; where a statement is expected it closes nothing
+		p.newError(p.curToken.ErrorLine(), fail.ErrIllegalToken, p.curToken.Literal)
+		return nil
 	default:
 		return nil
 	}
